@@ -16,7 +16,7 @@ MANIFEST = dict(
          'as a decision table); the pending-future protocol with two racing actors gives exactly one read-stream entry with the '
          'request id for every mode {200 body, unreadable 200, event then 202, 202 then event, 202 and silence, other status, '
          'exception} and both orders with arbitrary unrelated traffic at every control point, also for any list of serial requests; '
-         'the incremental event-stream parser is independent of the chunking. Resource release is proved only for abstract handles '
+         'the incremental event-stream parser is independent of the chunking and hands over exactly one action per rendered endpoint/message event, in order, for every conformant LF/CRLF rendering (c12_stream_delivers_rendered). Resource release is proved only for abstract handles '
          '(partial); the real tasks/streams/clients are checked by the correspondence run. Tied to the code by running the real '
          'sse_client under a virtual-time loop against a scripted httpx.MockTransport.',
     note='Trusted: Lean kernel, correspondence harness, virtual-time loop; httpx (incremental UTF-8 text decoding, MockTransport, '
@@ -26,11 +26,12 @@ MANIFEST = dict(
               'correspondence run under virtual time with scripted HTTP',
     design='5/C12',
 )
-GEN = []
+GEN = ["SseTiming"]
 THEOREMS = [
-    "c12_endpoint_forms", "c12_data_only_announcement", "c12_live_or_raise", "c12_enter_bounded", "c12_enter_complete",
+    "c12_translated", "c12_endpoint_forms", "c12_data_only_announcement", "c12_live_or_raise", "c12_enter_bounded", "c12_enter_complete",
     "c12_race_exactly_once", "c12_race_count", "c12_request_leaves_idle", "c12_serial_requests",
-    "c12_stream_chunk_independent", "c12_delivery_chunk_independent", "c12_cleanup_closes_all",
+    "c12_stream_chunk_independent", "c12_delivery_chunk_independent", "c12_stream_delivers_rendered",
+    "c12_server_messages_once_in_order", "c12_cleanup_closes_all",
 ]
 RULE = (
     "establishment {endpoint announced in 7 accepted forms x LF/CRLF x padding x announce tick (early, mid, timeout-1), 4xx/5xx/3xx/204, "
@@ -53,7 +54,7 @@ ASSUMPTIONS = [
     "scripted instants never coincide with the timeout / connection-cap instants in the correspondence run (either outcome satisfies the property there)",
     "server messages on the event stream carry ids different from the ids of the client's requests in flight",
     "request ids are strings (the library's own default); a synthesised error carries str(id)",
-    "the connection cap literal 15.0 s of _handle_sse_connection is hard-coded in the generator (the theorems hold for any cap)",
+    "the connection cap literal of _handle_sse_connection and the codes of the synthesised errors are re-read from the source on every run (Gen/SseTiming.lean); the theorems hold for any cap",
     "release of real tasks/streams/clients is observed only through the mock transport (no real sockets in the quick tier)",
 ]
 
@@ -73,9 +74,9 @@ def term_kind(m):
         return "routed:" + m["result"]["tag"]
     err = m.get("error")
     if isinstance(err, dict):
-        if err.get("code") == -32000:
+        if err.get("code") == G.LIT["timeout_code"]:
             return "timeout"
-        if err.get("code") == -32603:
+        if err.get("code") in G.LIT["fail_codes"]:
             return "fail"
         if err.get("code") == -32001:
             return "routed:post"
@@ -165,6 +166,8 @@ def oracle_enter(case, o):
 
 def oracle_requests(case, o, upto=None):
     """exactly one terminal message per request; server messages once, in order"""
+    if o.get("deadlock") is not None:
+        return oracle_release(case, o)
     terms, srv = split_delivered(case, o)
     for r in case.get("reqs", []):
         ms = terms[r["id"]]
@@ -190,6 +193,8 @@ def oracle_requests(case, o, upto=None):
 
 
 def oracle_release(case, o):
+    if (o.get("enter") or {}).get("k") != "yielded":
+        return None  # the property speaks of leaving a context that was entered
     if o.get("deadlock") is not None:
         ek = case.get("exit", {}).get("k", "normal")
         return (f"exit-hangs/{ek}", f"leaving the context never completes; tasks waiting for ever: {o['deadlock']}", {"deadlock": None})
@@ -317,15 +322,29 @@ class Chunking(Base):
         ctx.exhaustive_parts.append("chunking: every 1-cut of three streams; every (quick: every second) 2-cut of the two short ones")
         return G.chunk_cases(budget, ctx.sub_rng("c12-chunks", budget))
 
+    def impl_batch(self, cases):
+        """every case also carries the entry outcome of its un-cut twin (same stream in one chunk)"""
+        twins = {}
+        out = []
+        for c in cases:
+            o = H.run_case(G.harness_case(c))
+            tw = dict(copy.deepcopy(c), cuts=[], gap=0)
+            key = canon(tw)
+            if key not in twins:
+                twins[key] = (H.run_case(G.harness_case(tw)).get("enter") or {}).get("k")
+            o["uncut_enter"] = twins[key]
+            out.append(o)
+        return out
+
     def oracle(self, case, o):
         if o.get("harness_errors"):
             return None
         v = oracle_enter(case, o)
         if v is None and (o.get("enter") or {}).get("k") == "yielded":
             v = oracle_requests(case, o)
-        if v is None and (o.get("enter") or {}).get("k") != "yielded":
-            # the stream announces the endpoint long before the timeout: it must not depend on the cuts
-            return ("chunking/enter", f"entering failed for cuts {case.get('cuts')}: {o.get('enter')}", {"enter": "yielded"})
+        if v is None and (o.get("enter") or {}).get("k") != o.get("uncut_enter"):
+            return ("chunking/enter", f"entering {(o.get('enter') or {}).get('k')} with cuts {case.get('cuts')} but {o.get('uncut_enter')} "
+                    "when the same bytes arrive in one chunk", {"enter": o.get("uncut_enter")})
         return v
 
     def kind(self, case, o):
